@@ -305,6 +305,7 @@ def groups : List WFn → List WFn
 structure ClassD where
   ctorName : Nat          -- LUA_ctor_name
   fns : List WFn
+  mt : Nat                -- LUA_metadata: the class's own format field / template, interned (never `noMeta`)
   deriving Repr
 
 /-- `luaL_Reg_class` of one class: (Lua name, C function) -/
@@ -364,5 +365,40 @@ def gcStep (o : Obj) : Obj × Nat :=
 def gcRuns : Nat → Obj → Nat
   | 0, _ => 0
   | n + 1, o => (gcStep o).2 + gcRuns n (gcStep o).1
+
+/-! ### the metatable NAME at every site
+
+The registry of Lua maps names to metatables; a userdata carries the table that was found under the
+name its constructor asked for, and `luaL_checkudata(L, i, name)` compares with the table found
+under `name`.  The identity of a metatable therefore is its name (`Val.cls`), `noMeta` stands for
+"no metatable" (what `luaL_getmetatable` of a name nobody created leaves on the userdata).
+`LUA_metadata` is user-visible (`format: LUA_metadata`, `LUA_metadata_template` at library,
+namespace or class level), so the sites are modelled one by one. -/
+
+def noMeta : Nat := 0
+
+/-- the names written for one class: `luaL_newmetatable` in `luaopen_<lib>` (written by `wrap_class`
+    for every wrapped class, whether or not its method table is empty), `luaL_getmetatable` in each of
+    its constructors, `luaL_checkudata(L, 1, ..)` in each of its methods and its destructor -/
+structure ClassSites where
+  created : Option Nat
+  attached : Nat
+  demanded : Nat
+  deriving DecidableEq, Repr
+
+def classSites (c : ClassD) : ClassSites := ⟨some c.mt, c.mt, c.mt⟩
+
+/-- `class_arg_pop`: a class-pointer argument of the `i`-th wrapped class demands that class's name -/
+def argDemanded (classes : List ClassD) (i : Nat) : Option Nat := (classes[i]?).map (·.mt)
+
+/-- the names `luaopen_<lib>` registers -/
+def registry (classes : List ClassD) : List Nat := classes.filterMap (fun c => (classSites c).created)
+
+/-- what a constructor leaves: a userdata carrying the metatable registered under `name`, if any -/
+def attachedValue (reg : List Nat) (name data : Nat) : Val :=
+  ⟨.userdata, if name ∈ reg then name else noMeta, data⟩
+
+/-- `luaL_checkudata(L, i, name)` -/
+def demands (name : Nat) (v : Val) : Bool := v.ty == .userdata && v.cls == name
 
 end Shroud.LuaDispatch
